@@ -8,6 +8,7 @@ import (
 	"os"
 	"path/filepath"
 
+	"github.com/moby/patternmatcher"
 	"github.com/tonistiigi/fsutil"
 	"github.com/tonistiigi/fsutil/types"
 )
@@ -15,11 +16,15 @@ import (
 func init() {
 	kinds[0x1101] = run1101
 	kinds[0x1102] = run1102
+	kinds[0x1103] = run1103
 	props["C11"] = genC11
 }
 
-// input: (view includes excludes); output: (send_err recv_err hung stats_announced dest_raw opens)
+// input: (view includes excludes); output: (send_err recv_err hung stats_announced dest_raw opens ptable)
+// ptable = real single-pattern answers for every (pattern, path or ancestor) of the view: lets the
+// glue decide whether the case lies in the late-shadow domain of the incremental matcher (K1)
 func run1102(in Sx) Sx {
+	defer quietStderr()()
 	view := SxView(in.L[0])
 	var inc, exc []string
 	for _, p := range in.L[1].L {
@@ -30,7 +35,7 @@ func run1102(in Sx) Sx {
 	}
 	ffs, err := fsutil.NewFilterFS(&MemFS{Roots: view}, &fsutil.FilterOpt{IncludePatterns: inc, ExcludePatterns: exc})
 	if err != nil {
-		return L(N(9), N(9), N(0), L(), L(), L())
+		return L(N(9), N(9), N(0), L(), L(), L(), L())
 	}
 	work := WorkDir("c11-")
 	defer os.RemoveAll(work)
@@ -47,7 +52,7 @@ func run1102(in Sx) Sx {
 	}
 	snap, err := SnapshotRaw(dest, true)
 	if err != nil {
-		return L(N(9), N(9), N(0), L(), L(), L())
+		return L(N(9), N(9), N(0), L(), L(), L(), L())
 	}
 	// Open every regular file of the FULL view through the same filtered FS
 	var opens []Sx
@@ -73,7 +78,94 @@ func run1102(in Sx) Sx {
 		}
 	}
 	rec("", view)
-	return L(errClass(res.SendErr), errClass(res.RecvErr), Bool(res.Hung), L(announced...), RawListSx(snap), L(opens...))
+	tbl := pmatchTable(append(append([]string{}, inc...), exc...), withPrefixes(viewPaths(view)))
+	return L(errClass(res.SendErr), errClass(res.RecvErr), Bool(res.Hung), L(announced...), RawListSx(snap), L(opens...), L(tbl...))
+}
+
+// c11Verdict feeds a STAT sequence to a fresh real validator: () accepted, (#i) first rejected index
+func c11Verdict(stats []*types.Stat, h func(kind fsutil.ChangeKind, p string, fi os.FileInfo, err error) error) Sx {
+	for i, st := range stats {
+		if err := h(fsutil.ChangeKindAdd, st.Path, &fsutil.StatInfo{Stat: st}, nil); err != nil {
+			return L(NI(i))
+		}
+	}
+	return L()
+}
+
+// kind 1103: what Send puts on the wire for a filtered source, without the transfer:
+// input: (view include-raw exclude-raw maptable)
+// output: (#ffff) NewFilterFS failed
+//       | (#0 inc exc ptable calls opens vverdict hverdict)
+//   calls  = stats reported by the real WithHardlinkReset(NewFilterFS(MemFS(view), opt)).Walk
+//   opens  = ((path allowed) ...) for every regular file of the FULL view, in walk order: allowed = 1 the
+//            same FS opens it and serves the node's bytes, 0 Open fails, 2 Open serves other bytes
+//   vverdict / hverdict = the real order validator / hard-link validator on calls
+func run1103(in Sx) Sx {
+	defer quietStderr()()
+	return guardedC10(func() Sx {
+		view := SxView(in.L[0])
+		inc, exc := sxStrings(in.L[1]), sxStrings(in.L[2])
+		ffs, err := fsutil.NewFilterFS(&MemFS{Roots: view}, &fsutil.FilterOpt{IncludePatterns: inc, ExcludePatterns: exc, Map: mapFromTable(in.L[3])})
+		if err != nil {
+			return L(N(0xffff))
+		}
+		fs := fsutil.WithHardlinkReset(ffs)
+		var calls []Sx
+		var stats []*types.Stat
+		bad := false
+		err = fs.Walk(context.Background(), "/", func(p string, d gofs.DirEntry, err error) error {
+			if err != nil {
+				return err
+			}
+			fi, err := d.Info()
+			if err != nil {
+				return err
+			}
+			st := fi.Sys().(*types.Stat).CloneVT()
+			if st.Path != p {
+				bad = true
+			}
+			calls = append(calls, StatSx(st))
+			stats = append(stats, st)
+			return nil
+		})
+		if err != nil || bad {
+			return L(N(0xfffc))
+		}
+		var opens []Sx
+		var rec func(dir string, ns []*MNode)
+		rec = func(dir string, ns []*MNode) {
+			for _, n := range ns {
+				p := n.Name
+				if dir != "" {
+					p = dir + "/" + n.Name
+				}
+				if os.FileMode(n.Stat.Mode)&os.ModeType == 0 {
+					allowed := 0
+					if rc, err := fs.Open(p); err == nil {
+						b, rerr := io.ReadAll(rc)
+						rc.Close()
+						allowed = 2
+						if rerr == nil && bytes.Equal(b, n.Content) {
+							allowed = 1
+						}
+					}
+					opens = append(opens, L(S(p), NI(allowed)))
+				}
+				rec(p, n.Kids)
+			}
+		}
+		rec("", view)
+		is, err1 := patsSx(inc)
+		es, err2 := patsSx(exc)
+		if err1 != nil || err2 != nil {
+			return L(N(0xfffb))
+		}
+		tbl := pmatchTable(append(append([]string{}, inc...), exc...), withPrefixes(viewPaths(view)))
+		v := &fsutil.Validator{}
+		hv := &fsutil.Hardlinks{}
+		return L(N(0), is, es, L(tbl...), L(calls...), L(opens...), c11Verdict(stats, v.HandleChange), c11Verdict(stats, hv.HandleChange))
+	})
 }
 
 // input: (view); output: (stats reported by the real WithHardlinkReset(MemFS).Walk, real Hardlinks validator verdict)
@@ -209,4 +301,132 @@ func genC11(g *Gen) {
 		}
 		g.Emit(0x1102, L(ViewSx(v), L(inc...), L(exc...)), links > 0 && len(inc)+len(exc) > 0, cls)
 	}
+
+	// what the sender announces for a filtered source with hard links, and Open on every file:
+	// pattern lists and map tables as in C10, views with link groups spread over the tree.
+	// '!' patterns are allowed: cases in the late-shadow domain of the incremental matcher (K1)
+	// and with unsafe L/* literals are recognised by the glue and judged by C10, not here.
+	defer quietStderr()()
+	classes := map[string]int{}
+	skippedK1 := 0
+	k := g.Vol(1500, 30000)
+	for i := 0; i < k; i++ {
+		r := g.Rng
+		names := small
+		if i%3 == 0 {
+			names = []string{"a", "b", "ab", "c", "a.b"}
+		}
+		unsafeNames := i%20 == 19 // L/* literals the library reads as a regular expression (C10 unsafe-star-literal):
+		if unsafeNames {         // pruning is observable there, the stream must stay valid all the same
+			names = append(append([]string{}, small[:4]...), c10UnsafeNames...)
+		}
+		v := GenView(r, TreeOpts{MaxEntries: 5 + r.Intn(12), MaxDepth: 4, Names: names, Types: r.Chance(25), HardLinks: true, Owners: r.Chance(30)})
+		paths := viewPaths(v)
+		isDir := map[string]bool{}
+		links := 0
+		for _, st := range WalkEntries(v) {
+			isDir[st.Path] = os.FileMode(st.Mode).IsDir()
+			if st.Linkname != "" && os.FileMode(st.Mode)&os.ModeSymlink == 0 {
+				links++
+			}
+		}
+		var inc, exc []string
+		switch i % 4 {
+		case 0:
+			inc = genPatternList(r, paths, v, classes, 1)
+		case 1:
+			exc = genPatternList(r, paths, v, classes, 2)
+		default:
+			inc = genPatternList(r, paths, v, classes, 0)
+			exc = genPatternList(r, paths, v, classes, 0)
+		}
+		// exclude the source of a link group: the reset has to act
+		if links > 0 && r.Chance(35) {
+			var srcs []string
+			for _, st := range WalkEntries(v) {
+				if st.Linkname != "" && os.FileMode(st.Mode)&os.ModeSymlink == 0 {
+					srcs = append(srcs, st.Linkname)
+				}
+			}
+			exc = append(exc, Pick(r, srcs))
+		}
+		mt := L()
+		cls := "wire"
+		if unsafeNames {
+			cls += "+unsafe-names"
+		}
+		if i%5 == 4 {
+			mt = genMapTable(r, paths, isDir)
+			if len(mt.L) > 0 {
+				cls += "+map"
+			}
+		}
+		if links > 0 {
+			cls += "+links"
+		}
+		if len(inc)+len(exc) == 0 {
+			cls += "+nopatterns"
+		}
+		if !c11ModesAgree(inc, paths) || !c11ModesAgree(exc, paths) {
+			// the library's incremental and one-shot evaluation disagree on a path of this view:
+			// known finding K1 (late-shadow), registered for and judged by C10 (kinds 1001/1002)
+			skippedK1++
+			continue
+		}
+		in := L(ViewSx(v), stringsSx(inc), stringsSx(exc), mt)
+		out := run1103(in)
+		// non-trivial: the reset acted (an announced link name differs from the source's: a link
+		// source was filtered out)
+		reset := false
+		if len(out.L) == 8 {
+			orig := map[string]string{}
+			for _, st := range WalkEntries(v) {
+				orig[st.Path] = st.Linkname
+			}
+			for _, c := range out.L[4].L {
+				st := SxStat(c)
+				if orig[st.Path] != st.Linkname {
+					reset = true
+				}
+			}
+			if reset {
+				cls += "+reset"
+			}
+		}
+		g.EmitWith(0x1103, in, out, reset, cls)
+	}
+	g.Note("c11_pattern_classes", classes)
+	g.Note("c11_skipped_late_shadow_configurations", skippedK1)
+}
+
+// c11ModesAgree: on every path, patternmatcher's MatchesUsingParentResults handed down from the
+// root gives the verdict of MatchesOrParentMatches (false only in the K1 / late-shadow situation)
+func c11ModesAgree(raws []string, paths []string) bool {
+	if len(raws) == 0 {
+		return true
+	}
+	pm, err := patternmatcher.New(raws)
+	if err != nil {
+		return true
+	}
+	for _, p := range paths {
+		naive, err := pm.MatchesOrParentMatches(p)
+		if err != nil {
+			return true
+		}
+		info := patternmatcher.MatchInfo{}
+		m := false
+		for _, pre := range relPrefixes(p) {
+			var ni patternmatcher.MatchInfo
+			m, ni, err = pm.MatchesUsingParentResults(pre, info)
+			if err != nil {
+				return true
+			}
+			info = ni
+		}
+		if m != naive {
+			return false
+		}
+	}
+	return true
 }
